@@ -34,9 +34,9 @@ ASSUMPTIONS = ['selections are fresh InequalitySubsetState objects per compariso
                'numeric and string keys are never joined with each other', 'sampling, not proof']
 PROBES = ['shape_1_1', 'shape_n_n', 'shape_1_n', 'shape_n_1', 'chain_len_ge_2', 'cyclic_graph', 'incompatible_on_cycle', 'several_partners_answer',
           'joinlink_added', 'joinlink_removed', 'key_updated', 'partner_removed_from_collection', 'mixed_numeric_dtype', 'mixed_string_width',
-          'empty_selection', 'view_compare', 'big_tables', 'join_replaced', 'join_by_label', 'keys_beyond_2_53']
+          'empty_selection', 'view_compare', 'big_tables', 'join_replaced', 'join_by_label', 'keys_beyond_2_53', 'mixed_byte_order', 'rejected_joinlink_removal']
 
-WEIGHTS = {'join': 7, 'joinlink': 2, 'remove_joinlink': 1, 'upd': 2, 'remove': 0.5, 'compare': 7, 'failing_eval': 1.5}
+WEIGHTS = {'join': 7, 'joinlink': 2, 'remove_joinlink': 1, 'remove_dead_joinlink': 0.8, 'upd': 2, 'remove': 0.5, 'compare': 7, 'failing_eval': 1.5}
 KEYKINDS = ['int', 'float', 'sshort', 'slong']
 
 
@@ -50,6 +50,9 @@ def keycol(kind, vs, n, nkeys=5):
         return base.astype(np.int64) + 2 ** 53
     if kind == 'float':
         return base.astype(float)
+    if kind in ('int_be', 'float_be', 'int32', 'float32'):
+        # the same values in another storage layout: non-native byte order (as FITS readers deliver), narrower numbers
+        return base.astype({'int_be': '>i8', 'float_be': '>f8', 'int32': np.int32, 'float32': np.float32}[kind])
     letters = [chr(97 + i) for i in range(max(5, nkeys))]
     if kind == 'sshort':
         return np.array(letters)[base]                                # <U1
@@ -64,10 +67,13 @@ def generate(rng, cfg, guards):
     big = rng.chance(0.2)
     # (small tables only: on numpy's sort-based path np.isin itself mixes up int64 keys beyond 2**53 once a float column is involved)
     bigids = family == 'num' and not big and rng.chance(0.25)
+    layouts = family == 'num' and not bigids and rng.chance(0.4)
     ops = []
     for i in range(nt):
         kinds = [rng.pick((['int', 'float'] if not bigids else ['bigint', 'bigint', 'float']) if family == 'num' else ['sshort', 'slong'])
                  for _ in range(rng.randrange(2, 4))]
+        if layouts:
+            kinds = [rng.pick({'int': ['int', 'int_be', 'int_be', 'int32'], 'float': ['float', 'float_be', 'float_be', 'float32']}[x]) for x in kinds]
         if 'C11-nn-mixed-storage' in guards:
             kinds = [kinds[0]] * len(kinds)
         # size knob: numpy switches membership algorithms with the sizes of the two key arrays (np.isin), so some runs use
@@ -95,6 +101,10 @@ def generate(rng, cfg, guards):
             ops.append([k, r8(), r8(), r8(), r8()])
         elif k in ('remove_joinlink', 'remove'):
             ops.append([k, r8()])
+        elif k == 'remove_dead_joinlink':
+            # a removal that must be rejected (or ignored): the link was removed before, or was never added; look at every join afterwards
+            ops.append([k, r8(), r8(), r8()])
+            ops.append(['compare', r8(), rng.pick([-1, 2, 5]), None])
         elif k == 'upd':
             ops.append([k, r8(), r8(), rng.randrange(10000)])
         elif k == 'failing_eval':
@@ -202,6 +212,21 @@ def execute(case, res):
             joins.pop((i, j), None)
             joins.pop((j, i), None)
             res.probe('joinlink_removed')
+        elif k == 'remove_dead_joinlink':
+            dead = [l for l in joinlinks if not any(l is x for x in dc.external_links)
+                    and (tables.index(l.data1), tables.index(l.data2)) not in joins]
+            if dead and op[1] % 2:
+                l = dead[op[2] % len(dead)]
+            else:
+                i, j = op[2] % len(tables), op[3] % len(tables)
+                if i == j or (i, j) in joins:
+                    continue
+                l = JoinLink(cids1=[kcols(i)[0]], cids2=[kcols(j)[0]], data1=tables[i], data2=tables[j])
+            try:
+                dc.remove_link(l)
+            except Exception:
+                res.fault('rejected_call')
+            res.probe('rejected_joinlink_removal')
         elif k == 'upd':
             i = op[1] % len(tables)
             cs = list(tables[i].main_components)
@@ -316,7 +341,9 @@ def compare(tables, joins, kinds, op, res):
             res.probe('several_partners_answer')
         kpair = sorted(set(kinds[i]) | set(kinds[src]))
         if len(set(kinds[i]) | set(kinds[src])) > 1:
-            res.probe('mixed_numeric_dtype' if kpair[0] in ('int', 'float', 'bigint') else 'mixed_string_width')
+            res.probe('mixed_numeric_dtype' if kpair[0] not in ('sshort', 'slong') else 'mixed_string_width')
+            if any(x.endswith('_be') for x in kpair):
+                res.probe('mixed_byte_order')
             if 'bigint' in kpair:
                 res.probe('keys_beyond_2_53')
         res.fp(shapes, [len(tables), npairs, cyclic], kpair, min(pathlen(joins, i, src), 4), view is not None)
